@@ -183,9 +183,42 @@ def r3_subsample(ctx):
                 ok = rs is not None and txt(rs) == "random_state"
                 ctx.ob("R3", f, f"{f.short}: random_state reaches .sample()", ok, "random_state=random_state" if ok else "the sample is not reproducible with a fixed random_state")
         rets = [s for s in function_stmts(f) if isinstance(s, ast.Return)]
-        ok = any(isinstance(s.value, ast.IfExp) and txt(s.value.body) == obj and "not" in txt(s.value.test) for s in rets) or \
-            any(isinstance(s.value, ast.Name) and s.value.id == obj for s in rets)
-        ctx.ob("R3", f, f"{f.short}: without options the object itself is returned", ok, "identity when nothing is requested" if ok else "always builds a subsample")
+        # the whole object is returned exactly when no option was requested
+        part_lists = {txt(c.func.value) for c in calls_in(f.node) if callee_last(c) == "append" and isinstance(c.func, ast.Attribute)
+                      and c.args and isinstance(c.args[0], ast.Call) and callee_last(c.args[0]) in ("head", "tail", "sample")}
+        opt_atoms = tuple(sorted(f"{o} is None" for o in ("head", "tail", "sample")))
+        identity, bad = False, []
+        ex = Expander(f.node)
+        for r in rets:
+            v = r.value
+            if v is None:
+                continue
+            node = cfg.node_of(r)
+            pc = path_condition(cfg, node.id, keep=lambda t, n: t in opt_atoms)
+            all_none = pc[0] == opt_atoms and pc[1] == frozenset({(True, True, True)})
+            if isinstance(v, ast.Name) and v.id == obj:
+                if all_none:
+                    identity = True
+                else:
+                    bad.append(f"`return {obj}` is reached under {show_condition(pc)}, not only when head, tail and sample are all None")
+            elif isinstance(v, ast.IfExp):
+                for branch, pol in ((v.body, True), (v.orelse, False)):
+                    if isinstance(branch, ast.Name) and branch.id == obj:
+                        t = v.test
+                        if isinstance(t, ast.Name) and t.id not in part_lists:
+                            t = ex.expand(t)
+                        neg = isinstance(t, ast.UnaryOp) and isinstance(t.op, ast.Not)
+                        inner = t.operand if neg else t
+                        empty_parts = txt(inner) in part_lists and (neg == pol)
+                        if empty_parts and pc[1] and not pc[0]:
+                            identity = True
+                        elif all_none:
+                            identity = True
+                        else:
+                            bad.append(f"`{txt(v)[:60]}` returns the whole object under `{txt(v.test)}`, which is not `no option requested`")
+        ok = identity and not bad
+        ctx.ob("R3", f, f"{f.short}: the whole object is returned exactly when no option is requested", ok,
+               "identity when nothing is requested" if ok else ("; ".join(bad) if bad else "always builds a subsample"))
         concat = any(callee_last(c) == "concat" for c in calls_in(f.node))
         ctx.ob("R3", f, f"{f.short}: selected parts are concatenated", concat, "concat(parts)" if concat else "parts are not combined")
 
